@@ -331,6 +331,20 @@ pub fn run_c08(tier: Tier, replay: Option<&J>) -> i32 {
                     if !agree {
                         problem = Some(("paths-differ", format!("the container Reader with a reader schema ends differently from the datum reader: {}", ev::trunc(&format!("{got3:?}"), 200))));
                     }
+                    // fourth path: the deprecated wrapper from_avro_datum(writer, bytes, Some(reader))
+                    if problem.is_none() {
+                        st.transitions += 1;
+                        #[allow(deprecated)]
+                        let got4 = guarded(|| apache_avro::from_avro_datum(&pp.wl, &mut &bytes[..], Some(&pp.rl)));
+                        let agree4 = match (&got, &got4) {
+                            (Ok(a), Ok(Ok(b))) => value_eq(a, b),
+                            (Err(_), Ok(Err(_))) => true,
+                            _ => false,
+                        };
+                        if !agree4 {
+                            problem = Some(("paths-differ", format!("from_avro_datum with a reader schema ends differently from the datum reader: {}", ev::trunc(&format!("{got4:?}"), 200))));
+                        }
+                    }
                 }
                 match problem {
                     None => {
